@@ -582,22 +582,14 @@ pub fn run(tier: Tier, seed: u64, replay: Option<String>) -> i32 {
     for (_, t) in &reals {
         jobs.push(Job { class: "real-complete", text: t.clone() });
     }
-    jobs.extend(make_jobs(seed, tier.pick(50000, 1000000), &reals));
-    if let Some(j) = jobs.iter().find(|j| j.class == "exotic") {
-        ctx.sample_text("exotic", &j.text);
-    }
-    if let Some(j) = jobs.iter().find(|j| j.class == "mutated-generated") {
-        ctx.sample_text("mutated-generated", &j.text);
-    }
-    let texts: Vec<String> = jobs.iter().map(|j| j.text.clone()).collect();
-    let results = worker::run_all(&texts, 16, timeout);
-    for (j, r) in jobs.iter().zip(results) {
-        handle(&mut ctx, j, r);
-    }
+    // the libFuzzer campaign runs first (while this process is still small); its corpus is seeded
+    // from the committed replays and a sample of structured inputs of its own
+    let mut seed_jobs: Vec<Job> = jobs.iter().filter(|j| j.class == "replay").cloned().collect();
+    seed_jobs.extend(make_jobs(seed ^ 0xf00d, 4000, &reals));
     // coverage-guided leg (thorough tier, or VERIF_FUZZ_SECS=<n>): libFuzzer over the same oracle
     let fuzz_secs: u64 = std::env::var("VERIF_FUZZ_SECS").ok().and_then(|v| v.parse().ok()).unwrap_or(if tier == Tier::Thorough { 900 } else { 0 });
     if fuzz_secs > 0 {
-        match fuzz_leg(seed, fuzz_secs, &jobs) {
+        match fuzz_leg(seed, fuzz_secs, &seed_jobs) {
             Ok((stats, artifacts)) => {
                 ctx.extra.insert("libfuzzer".into(), stats);
                 let arts: Vec<Job> = artifacts.into_iter().map(|t| Job { class: "libfuzzer-artifact", text: t }).collect();
@@ -614,6 +606,18 @@ pub fn run(tier: Tier, seed: u64, replay: Option<String>) -> i32 {
                 ctx.inconclusive.push(format!("libFuzzer leg: {e}"));
             }
         }
+    }
+    jobs.extend(make_jobs(seed, tier.pick(50000, 1000000), &reals));
+    if let Some(j) = jobs.iter().find(|j| j.class == "exotic") {
+        ctx.sample_text("exotic", &j.text);
+    }
+    if let Some(j) = jobs.iter().find(|j| j.class == "mutated-generated") {
+        ctx.sample_text("mutated-generated", &j.text);
+    }
+    let texts: Vec<String> = jobs.iter().map(|j| j.text.clone()).collect();
+    let results = worker::run_all(&texts, 16, timeout);
+    for (j, r) in jobs.iter().zip(results) {
+        handle(&mut ctx, j, r);
     }
     let infra = !ctx.inconclusive.is_empty() && ctx.evaluations == 0;
     let code = ctx.finish();
